@@ -215,7 +215,8 @@ theorem syn_accepted_iff_room (cfg : Cfg) (k : Kernel) (lfd : Nat) (l r : SockAd
     (k.countChildren lfd l + li.ready.length < li.backlog →
       (k.acceptSyn cfg lfd l r s).nextId = k.nextId + 1 ∧
       ∃ p, (k.acceptSyn cfg lfd l r s).outbound = k.outbound ++ [p] ∧ p.seg.flags.syn = true ∧ p.seg.flags.ack = true ∧
-        p.seg.ack = wadd s.seq 1 ∧ p.dst = r.ip ∧ p.seg.dstPort = r.port) := by
+        p.seg.ack = wadd s.seq 1 ∧ p.dst = r.ip ∧ p.seg.dstPort = r.port ∧ p.src = l.ip ∧ p.seg.srcPort = l.port ∧
+        p.seg.flags.rst = false ∧ p.udp = none) := by
   constructor
   · intro hfull
     unfold Kernel.acceptSyn
@@ -241,7 +242,7 @@ theorem syn_accepted_iff_room (cfg : Cfg) (k : Kernel) (lfd : Nat) (l r : SockAd
                          seq := (((k.insertSock { dgram := ls.dgram, v6 := ls.v6 }).1.insertBinding ⟨false, l.ip, l.port⟩
                                   (k.insertSock { dgram := ls.dgram, v6 := ls.v6 }).2).initialSequence).2,
                          ack := wadd s.seq 1, flags := { syn := true, ack := true }, window := synWindow cfg,
-                         payload := [] } }, ?_, ?_, ?_, ?_, ?_, ?_⟩
+                         payload := [] } }, ?_, ?_, ?_, ?_, ?_, ?_, ?_, ?_, ?_, ?_⟩
       · show (Kernel.insertConnection _ l r _).outbound ++ _ = k.outbound ++ _
         rw [(e1 _ _ _ _).2]
         show (Kernel.insertBinding _ _ _).outbound ++ _ = k.outbound ++ _
@@ -265,6 +266,166 @@ theorem synack_establishes (cfg : Cfg) (k : Kernel) (fd : Nat) (so : Socket) (t 
     exact Kernel.getSock_setSock_self k fd so' hsome
   rw [this]
 
+theorem sockAddr_eta (a : SockAddr) : ({ ip := a.ip, port := a.port } : SockAddr) = a := by cases a; rfl
+
+/-- A listener found by `find_listener` is a socket in listening mode. -/
+theorem findListener_listening (k : Kernel) (l : SockAddr) (lfd : Nat) (h : k.findListener l = some lfd) :
+    ∃ ls li, k.getSock lfd = some ls ∧ ls.listen = some li := by
+  have key : ∀ (xs : List Nat), xs.find? (fun fd => match k.getSock fd with
+      | some s => s.listen.isSome
+      | none => false) = some lfd → ∃ ls li, k.getSock lfd = some ls ∧ ls.listen = some li := by
+    intro xs hx
+    have := List.find?_some hx
+    cases hg : k.getSock lfd with
+    | none => rw [hg] at this; simp at this
+    | some ls =>
+      rw [hg] at this
+      cases hl : ls.listen with
+      | none => simp [hl] at this
+      | some li => exact ⟨ls, li, rfl, hl⟩
+  unfold Kernel.findListener at h
+  dsimp only at h
+  split at h
+  · rename_i fd hfd
+    cases h
+    exact key _ hfd
+  · exact key _ h
+
+/-- **`connect` resolves `Ok` exactly when a listener is reachable and has backlog room** — one
+    lossless handshake exchange between two kernels, as one statement. The client `kc` has a
+    `SynSent` socket `fd` (what `poll_connect` creates) whose SYN `p` travels from `cl` to `sv`; the
+    server `ks` has no connection for that 4-tuple yet. `ks` handles the SYN, everything it emits in
+    response is delivered to the client in order, and the application polls `connect` again:
+
+    * `Ok` ⇔ `find_listener sv` (exact address first, then the wildcard of the family) finds a
+      listening socket whose half-open children plus accept queue are below its backlog;
+    * no listener ⇒ `ConnectionRefused` (the SYN is answered by an RST);
+    * a listener without room ⇒ still `Pending` and the server kernel is unchanged (the SYN is
+      dropped without a trace; the client retransmits). -/
+theorem connect_ok_iff_listener_room (cfg : Cfg) (kc ks : Kernel) (fd : Nat) (so : Socket) (t : Tcb)
+    (cl sv : SockAddr) (p : Packet)
+    (hs : kc.getSock fd = some so) (ht : so.tcb = some t) (hst : t.state = .synSent) (hto : t.timedOut = false)
+    (hconn : kc.findConnection cl sv = some fd)
+    (hu : p.udp = none) (hsrc : p.src = cl.ip) (hsp : p.seg.srcPort = cl.port) (hdst : p.dst = sv.ip)
+    (hdp : p.seg.dstPort = sv.port) (hsyn : p.seg.flags.syn = true) (hnoack : p.seg.flags.ack = false)
+    (hnc : ks.findConnection sv cl = none) :
+    let ks' := Kernel.deliver cfg ks p
+    let kc' := (ks'.outbound.drop ks.outbound.length).foldl (Kernel.deliver cfg) kc
+    let room : Prop := ∃ lfd ls li, ks.findListener sv = some lfd ∧ ks.getSock lfd = some ls ∧ ls.listen = some li ∧
+      ks.countChildren lfd sv + li.ready.length < li.backlog
+    ((kc'.pollConnect cfg fd sv).2 = .ok () ↔ room) ∧
+    (ks.findListener sv = none → (kc'.pollConnect cfg fd sv).2 = .err .refused) ∧
+    (¬ room → ks.findListener sv ≠ none → (kc'.pollConnect cfg fd sv).2 = .pending ∧ ks' = ks) := by
+  intro ks' kc' room
+  have hl : ({ ip := p.dst, port := p.seg.dstPort } : SockAddr) = sv := by rw [hdst, hdp]
+  have hr : ({ ip := p.src, port := p.seg.srcPort } : SockAddr) = cl := by rw [hsrc, hsp]
+  have hsome : (kc.getSock fd).isSome = true := by rw [hs]; rfl
+  -- what the client does with one reply packet addressed to its connection
+  have hclient : ∀ q : Packet, q.udp = none → q.dst = cl.ip → q.seg.dstPort = cl.port → q.src = sv.ip →
+      q.seg.srcPort = sv.port → Kernel.deliver cfg kc q = Kernel.handleOnConnection cfg kc fd cl sv q.seg := by
+    intro q h1 h2 h3 h4 h5
+    have e1 : ({ ip := q.dst, port := q.seg.dstPort } : SockAddr) = cl := by rw [h2, h3]
+    have e2 : ({ ip := q.src, port := q.seg.srcPort } : SockAddr) = sv := by rw [h4, h5]
+    unfold Kernel.deliver
+    simp only [h1, e1, e2, hconn]
+    simp
+  have hpend : (kc.pollConnect cfg fd sv).2 = .pending := by
+    unfold Kernel.pollConnect
+    simp [hs, ht, hst]
+  -- the three cases
+  have hA : ks.findListener sv = none → (kc'.pollConnect cfg fd sv).2 = .err .refused := by
+    intro hnl
+    have hd := (refuse_path cfg ks p hu hsyn hnoack (by rw [hl, hr]; exact hnc) (by rw [hl]; exact hnl)).1
+    have hout : ks'.outbound.drop ks.outbound.length =
+        [{ src := sv.ip, dst := cl.ip,
+           seg := { srcPort := sv.port, dstPort := cl.port, seq := 0,
+                    ack := wadd p.seg.seq (p.seg.payload.length + 1 + (if p.seg.flags.fin then 1 else 0)),
+                    flags := { rst := true, ack := true }, window := 0, payload := [] } }] := by
+      show (Kernel.deliver cfg ks p).outbound.drop _ = _
+      rw [hd, hl, hr]
+      simp [Kernel.emitRst, Kernel.emit, hnoack, hsyn]
+    show (((ks'.outbound.drop ks.outbound.length).foldl (Kernel.deliver cfg) kc).pollConnect cfg fd sv).2 = _
+    rw [hout, List.foldl_cons, List.foldl_nil, hclient _ rfl rfl rfl rfl rfl]
+    have hab : Kernel.handleOnConnection cfg kc fd cl sv
+        { srcPort := sv.port, dstPort := cl.port, seq := 0,
+          ack := wadd p.seg.seq (p.seg.payload.length + 1 + (if p.seg.flags.fin then 1 else 0)),
+          flags := { rst := true, ack := true }, window := 0, payload := [] } =
+        kc.setSock fd { so with tcb := some (t.abort true) } := by
+      unfold Kernel.handleOnConnection Kernel.abortOrReap Kernel.abortWith Kernel.getTcb
+      simp [hs, ht, hst]
+    rw [hab]
+    exact refused_after_rst cfg kc fd so t sv hs hto
+  have hroomcase : ∀ lfd ls li, ks.findListener sv = some lfd → ks.getSock lfd = some ls → ls.listen = some li →
+      (ks.countChildren lfd sv + li.ready.length < li.backlog → (kc'.pollConnect cfg fd sv).2 = .ok ()) ∧
+      (¬ ks.countChildren lfd sv + li.ready.length < li.backlog → (kc'.pollConnect cfg fd sv).2 = .pending ∧ ks' = ks) := by
+    intro lfd ls li hfl hgs hli
+    have hd : ks' = ks.acceptSyn cfg lfd sv cl p.seg := by
+      show Kernel.deliver cfg ks p = _
+      unfold Kernel.deliver
+      simp only [hu, hl, hr, hnc, hfl, hsyn, hnoack]
+      simp
+    obtain ⟨hfull, hroom⟩ := syn_accepted_iff_room cfg ks lfd sv cl p.seg ls li hgs hli
+    constructor
+    · intro hlt
+      obtain ⟨_, q, hq, hqs, hqa, _, hqd, hqdp, hqsrc, hqsp, hqr, hqu⟩ := hroom hlt
+      show (((ks'.outbound.drop ks.outbound.length).foldl (Kernel.deliver cfg) kc).pollConnect cfg fd sv).2 = _
+      rw [hd, hq]
+      simp only [List.drop_left', List.foldl_cons, List.foldl_nil]
+      rw [hclient q hqu hqd hqdp hqsrc hqsp]
+      exact synack_establishes cfg kc fd so t cl sv sv q.seg hs ht hst hqr hqs hqa
+    · intro hnlt
+      have hks : ks' = ks := by rw [hd]; exact hfull (by omega)
+      refine ⟨?_, hks⟩
+      show (((ks'.outbound.drop ks.outbound.length).foldl (Kernel.deliver cfg) kc).pollConnect cfg fd sv).2 = _
+      rw [hks]
+      simp only [List.drop_length, List.foldl_nil]
+      exact hpend
+  refine ⟨⟨?_, ?_⟩, hA, ?_⟩
+  · intro hok
+    cases hfl : ks.findListener sv with
+    | none => rw [hA hfl] at hok; cases hok
+    | some lfd =>
+      obtain ⟨ls, li, hgs, hli⟩ := findListener_listening ks sv lfd hfl
+      by_cases hlt : ks.countChildren lfd sv + li.ready.length < li.backlog
+      · exact ⟨lfd, ls, li, hfl, hgs, hli, hlt⟩
+      · rw [((hroomcase lfd ls li hfl hgs hli).2 hlt).1] at hok; cases hok
+  · rintro ⟨lfd, ls, li, hfl, hgs, hli, hlt⟩
+    exact (hroomcase lfd ls li hfl hgs hli).1 hlt
+  · intro hnr hne
+    cases hfl : ks.findListener sv with
+    | none => exact absurd hfl hne
+    | some lfd =>
+      obtain ⟨ls, li, hgs, hli⟩ := findListener_listening ks sv lfd hfl
+      exact (hroomcase lfd ls li hfl hgs hli).2 (fun hlt => hnr ⟨lfd, ls, li, hfl, hgs, hli, hlt⟩)
+
+def srv : SockAddr := ⟨.host 1 false, 9000⟩
+
+/-- The hypotheses and the conclusion of `connect_ok_iff_listener_room` evaluated on the kernels
+    the model reaches by `ops` (client host 0, its socket 1, server host 1). -/
+def connectProbe (cfg : Cfg) (ops : List Op) : Bool × Option Nat × Res Unit :=
+  let cl : SockAddr := ⟨.host 0 false, 49152⟩
+  let s := ((Sys.init cfg 2).run ops).1
+  let kc := s.kernel 0
+  let ks := s.kernel 1
+  let p := kc.outbound[0]!
+  let kc' := ((Kernel.deliver cfg ks p).outbound.drop ks.outbound.length).foldl (Kernel.deliver cfg) kc
+  let hyps := ((kc.getSock 1).bind (·.tcb) |>.map (fun t => (t.state, t.timedOut))) == some (.synSent, false) &&
+    kc.findConnection cl srv == some 1 && ks.findConnection srv cl == none && p.udp == none &&
+    p.seg.flags.syn && !p.seg.flags.ack && p.src == cl.ip && p.seg.srcPort == cl.port && p.dst == srv.ip &&
+    p.seg.dstPort == srv.port
+  (hyps, ks.findListener srv, (kc'.pollConnect cfg 1 srv).2)
+
+set_option maxRecDepth 100000 in
+/-- Non-vacuity of `connect_ok_iff_listener_room`: the kernels reached by the model's own `listen` /
+    `connect` ops satisfy its hypotheses (the client socket is `SynSent`, indexed under its
+    4-tuple, and its SYN is the packet in `outbound`); with the listener the connect resolves `Ok`,
+    without it (`connect` only) `ConnectionRefused`, and with `backlog = 0` it stays `Pending`. -/
+example :
+    connectProbe {} [.listen 1 0 srv, .connect 0 0 0 srv] = (true, some 1, .ok ()) ∧
+    connectProbe {} [.connect 0 0 0 srv] = (true, none, .err .refused) ∧
+    connectProbe { backlog := 0 } [.listen 1 0 srv, .connect 0 0 0 srv] = (true, some 1, .pending) := by
+  decide
+
 /-! ## Reclamation: full statement, witnesses, repaired variant -/
 
 /-- **Full reclamation statement** (C13, second sentence), on the model: for every op sequence, at
@@ -276,7 +437,6 @@ theorem synack_establishes (cfg : Cfg) (k : Kernel) (fd : Nat) (so : Socket) (t 
 def C13_Reclaim_Statement (cfg : Cfg) : Prop :=
   ∀ ops : List Op, Spec.c13Check cfg (Spec.modelHistory cfg 2 ops) = none
 
-def srv : SockAddr := ⟨.host 1 false, 9000⟩
 
 def witness_orphan : List Op :=
     [.listen 1 0 srv, .connect 0 0 0 srv, .egress, .deliver 0, .ccancel 0, .egress, .deliver 1,
